@@ -68,7 +68,7 @@ CHECKS = {
          "merged on the exact bytes of the strategy members): callback trace starts at the start point and has non-increasing recomputed "
          "cost, arguments hold the last iterate, iter <= max_iter, status == MaxIters exactly when the bound stopped it (decided by re-running "
          "with max_iter+1), Ftol/Ptol results within 1e-3 of closed-form minimisers (long-double normal equations, Procrustes); every judged solve is repeated "
-         "through the overloads without a callback and must be the same solve bit for bit; residual-scaled linear instances.",
+         "through the overloads without a callback and must be the same solve bit for bit; residual-scaled linear instances and one with a right-hand side of magnitude 2^530 (squared residual norm not representable).",
     design="4/C09", technique="explicit-state enumeration of problem/option products and BFS over solver-state histories against closed-form references"),
  "C10": dict(
     text="Bounded exhaustive enumeration of the full product of J families (8 structured families incl. rank-deficient, graded, nearly "
